@@ -257,7 +257,9 @@ class BlockingCallScan(FiniteTask):
 
 def tasks(tier):
     from contracts import recvpath
-    return [ConnectTask(), AcceptedSocketTask(), GetMsgTask(), ReceivePduTask(), BlockingCallScan()]
+    from contracts.dul_reactor import DulReactorTask
+    from contracts.C07 import RunReactorTask
+    return [ConnectTask(), AcceptedSocketTask(), GetMsgTask(), ReceivePduTask(), BlockingCallScan(), DulReactorTask(), RunReactorTask()]
 
 
 def replay(rec):
